@@ -117,9 +117,13 @@ func VfC20_IDOrder() {
 	var defs [3]string
 	sigil := "attributes #"
 	uses := ""
+	undefined := -1 // index of an attribute group that is used but not defined (materialised by the parser)
 	if vfChoice("kind", 2) == 0 {
+		undefined = vfChoice("undefined", 4) - 1
 		for i := 0; i < 3; i++ {
-			defs[i] = "attributes #" + d[i:i+1] + " = { nounwind }\n"
+			if i != undefined {
+				defs[i] = "attributes #" + d[i:i+1] + " = { nounwind }\n"
+			}
 			uses += "declare void @f" + string(rune('a'+i)) + "() #" + d[i:i+1] + "\n"
 		}
 	} else {
@@ -150,9 +154,21 @@ func VfC20_IDOrder() {
 	s0, s1 := m0.String(), m1.String()
 	vfAssert("C20.id-order.order-independent", s0 == s1)
 	ids := hC20Lines(s1, sigil)
-	vfAssert("C20.id-order.all-printed", len(ids) == 3)
-	if len(ids) == 3 {
-		// single digits: the printed identifiers ascend
-		vfAssert("C20.id-order.ascending", vfAnd(vfAnd(len(ids[0]) == 1, vfAnd(len(ids[1]) == 1, len(ids[2]) == 1)), vfAnd(ids[0][0] < ids[1][0], ids[1][0] < ids[2][0])))
+	// every defined group / node is printed (a materialised group may or may
+	// not be listed); whatever is listed ascends (single digits)
+	minLines := 3
+	if undefined >= 0 {
+		minLines = 2
 	}
+	vfAssert("C20.id-order.all-printed", vfAnd(len(ids) >= minLines, len(ids) <= 3))
+	asc := true
+	for i := 0; i < len(ids); i++ {
+		asc = vfAnd(asc, len(ids[i]) == 1)
+	}
+	if asc {
+		for i := 0; i+1 < len(ids); i++ {
+			asc = vfAnd(asc, ids[i][0] < ids[i+1][0])
+		}
+	}
+	vfAssert("C20.id-order.ascending", asc)
 }
